@@ -100,6 +100,17 @@ def c01_binary(a):
     v, w = vec(a["s1"], a["p1"]), vec(a["s2"], a["p2"], a.get("fl2", "g"))
     rv, rw = vec(CART[d1], a["p1"]), vec(CART[d2], a["p2"], a.get("fl2", "g"))
     args = scal(mp, a.get("args", []))
+    if a["m"] in ("iadd", "isub"):
+        # in-place operators: the object keeps ITS stored system; what it denotes afterwards must not depend on either operand's system
+        import operator as _op
+        f_ = _op.iadd if a["m"] == "iadd" else _op.isub
+        want = f_(rv, rw)
+        got = f_(v, w)
+        if a["s1"][-1] == "tau" and want.t < 0:
+            raise NotRepresentable("exact result has negative time: not representable in tau storage")
+        ok, why = same_result(got, want)
+        assert ok and C.sig_of(got) == tuple(a["s1"]), f"C01 {a['m']} on {a['s1']} x {a['s2']} at {a['p1']} {a['p2']}: {why}; stored system afterwards {C.sig_of(got)}"
+        return
     want = getattr(rv, a["m"])(rw, *args)
     import vector as _v
     if a["s1"][-1] == "tau" and isinstance(want, _v.Vector) and hasattr(want, "temporal") and want.t < 0:
@@ -236,9 +247,10 @@ def search_c01(seed, tier, only_modules=None, limit=5):
             pp = list(zip(pts[:2], pts[1:3])) if dim == 4 else \
                 [(pts[i], pts[i + 1]) if i % 2 == 0 else (pts[i + 1], pts[i]) for i in range(len(pts) - 1)]
             for p1, p2 in pp:
-                for m in BINARY[dim]:
-                    if m == "subtract" and s1[-1] == "tau" and s2[-1] == "tau":
-                        continue
+                for m in BINARY[dim] + ["iadd", "isub"]:
+                    if m in ("subtract", "isub") and s1[-1] == "tau":
+                        if s2[-1] == "tau" or m == "isub":
+                            continue       # the difference need not be representable in tau storage
                     n += 1
                     run(c01_binary, {"m": m, "s1": list(s1), "s2": list(s2), "p1": p1, "p2": p2}, out, limit)
         if dim >= 3:
@@ -309,6 +321,20 @@ def neutral(a):
     assert not bad, f"{a['op']} on {sig} stored {st}: Cartesian components {got}, the operand has {want}"
 
 
+@check
+def zero_factor(a):
+    """scaling by a factor of exactly zero gives the zero vector (all Cartesian components 0, no NaN) in every stored system (float64)"""
+    import math
+    import vector
+    sig, st = tuple(a["sig"]), [float(x) for x in a["stored"]]
+    v = vector.obj(**dict(zip(C.signames(sig), st)))
+    forms = {"scale(0.0)": lambda: v.scale(0.0), "v * 0": lambda: v * 0, "0.0 * v": lambda: 0.0 * v, "v * -0.0": lambda: v * -0.0,
+             "scale(numpy.float64(0))": lambda: v.scale(__import__("numpy").float64(0.0))}
+    r = forms[a["op"]]()
+    comps = [float(r.x), float(r.y)] + ([float(r.z)] if len(sig) >= 2 else []) + ([float(r.t)] if len(sig) == 3 and sig[2] == "t" else [])
+    assert all((not math.isnan(c)) and c == 0.0 for c in comps), f"{a['op']} on {sig} stored {st}: Cartesian components {comps}, expected zeros"
+
+
 def neutral_sweep(seed, families, out, limit):
     """float64 objects in every stored system (timelike, spacelike-with-tau<0 for 4D) x every neutral-parameter operation of the families"""
     r = C.rng(seed, "neutral")
@@ -330,6 +356,10 @@ def neutral_sweep(seed, families, out, limit):
                         continue
                     n += 1
                     run(neutral, {"op": lab, "sig": list(sig), "stored": [repr(x) for x in st]}, out, limit)
+                if "vs" in families and (len(sig) < 3 or sig[2] == "t") and (len(sig) < 2 or sig[1] != "theta" or True):
+                    for lab in ("scale(0.0)", "v * 0", "0.0 * v", "v * -0.0", "scale(numpy.float64(0))"):
+                        n += 1
+                        run(zero_factor, {"op": lab, "sig": list(sig), "stored": [repr(x) for x in st]}, out, limit)
     return n
 
 
@@ -578,7 +608,7 @@ def search_c02(seed, tier, limit=5):
         mag = sum(float(x) ** 2 for x in q) ** 0.5
         p_sp = q + [repr(max(abs(float(q[2])) * 1.05, mag * 0.9))]
         for sig in C.SIG4:
-            for m in ("t", "t2", "tau", "tau2", "beta", "Et", "Et2", "Mt2", "Mt", "mag", "eta"):
+            for m in ("t", "t2", "tau", "tau2", "beta", "Et", "Et2", "Mt2", "Mt", "mag", "eta", "unit", "to_beta3"):
                 n += 1
                 run(c02_unary, {"m": m, "sig": list(sig), "p": p_sp, "fl": "m" if m in ("Et", "Et2", "Mt", "Mt2") else "g"}, out, limit)
     # float64 clause for two-vector operations, incl. highly relativistic boosters given by (.., mass)
@@ -958,9 +988,34 @@ def c13_float64_ranges(a):
             assert lo <= float(val) <= hi, f"{name} = {float(val)!r} outside [{lo}, {hi}] for {a['p1']} as {a['s1']} / {a['p2']} as {a['s2']}"
 
 
+@check
+def c13_t_from_tau(a):
+    """t and t2 read from a tau-stored vector are non-negative and never NaN for EVERY stored tau, including tau < -|p| (float64)"""
+    import math
+    import vector
+    sig = tuple(a["sig"])
+    st = [float(x) for x in a["stored"]]
+    for fl in ("g", "m"):
+        v = C.obj_vec(fl, sig, st)
+        t, t2 = float(v.t), float(v.t2)
+        assert not math.isnan(t) and t >= 0.0, f"t = {t!r} from the stored coordinates {st} of {sig}"
+        assert not math.isnan(t2) and t2 >= 0.0, f"t2 = {t2!r} from the stored coordinates {st} of {sig}"
+        w = v.to_xyzt()
+        assert not math.isnan(float(w.t)) and float(w.t) >= 0.0, f"to_xyzt().t = {float(w.t)!r} from the stored coordinates {st} of {sig}"
+
+
 def search_c13(seed, tier, limit=5):
     r = C.rng(seed, "c13")
     out, n = [], 0
+    for sig in C.SIG4:
+        if sig[-1] != "tau":
+            continue
+        for p in points(3, r, 1)[:4]:
+            sp = C.cart_to_stored(sig[:2], [float(x) for x in p])
+            mag = sum(float(x) ** 2 for x in p) ** 0.5
+            for tau in (0.0, 0.5 * mag, -0.5 * mag, -mag, -1.0001 * mag, -2.6 * mag, -40.0 * mag, 3.0 * mag):
+                n += 1
+                run(c13_t_from_tau, {"sig": list(sig), "stored": [repr(x) for x in sp] + [repr(tau)]}, out, limit)
     # float64 boundary pairs (exactly antiparallel / parallel, several directions) for EVERY pair of coordinate systems
     dirs = [[0.0, 1.0, 2.0], [1.0, 2.0, 2.0], [1.0, 1.0, 1.0], [3.0, 4.0, 5.0], [-2.0, 0.5, 0.25], [0.3, -0.7, 1.9], [1.0, 0.0, 0.0], [0.0, -1.0, 0.0]]
     dirs += [[r.uniform(-3, 3) for _ in range(3)] for _ in range(4 if tier == "quick" else 24)]
